@@ -19,7 +19,7 @@ BOUNDS = {"entry_points": ["pulse", "enable", "timed_enable", "event_pulse", "ev
           "pulse_ms": "[-4,40] (and [250,262] around the platform max_pulse) int or None", "powers": "[-1,2] on the grid of quarters or None", "max_pulse_ms": "None or [1,30]", "limits": "[0,1] on the grid of quarters or None",
           "max_hold_duration_s": "None or [1,10] real", "timed scenario": "<=2 further operations at symbolic instants"}
 ASSUMPTIONS = ["virtual platform boundary: serial platforms' own encoders are not executed", "platform max_pulse is 255 (virtual platform)",
-               "error messages format the offending value (realisation): numeric domains are finite grids", "pulse_ms 0 is not treated as a refused request (statement: negative)", "PSU wait times: default PSU, max_wait_ms None",
+               "error messages format the offending value (realisation): numeric domains are finite grids", "pulse_ms 0 is not treated as a refused request (statement: negative)", "PSU wait times: default PSU; max_wait_ms is None except in scenario deferred (busy supply, max_wait_ms in [0,400])",
                "'no future code path bypasses verification' is about code that does not exist: the claim covers the listed entry points"]
 BUDGET = {"quick": 100, "thorough": 600}
 
@@ -249,6 +249,49 @@ def body_timed(S, t, part):
     S.note("cmds", len(mon.cmds))
 
 
+def body_deferred(S, t, part):
+    """a request carrying max_wait_ms while the power supply is busy is executed later (PSU optimisation, the path ball-device
+    ejectors use): the switch-off promise counts from the instant the coil is really switched on"""
+    m = t.machine
+    c = m.coils["c_main"]
+    S.now_symbolic(t.loop)
+    c.config['allow_enable'] = True
+    c.config['psu']._busy_until = None
+    mode = part["mode"]
+    mon = Monitor(t, c)
+    t0 = t.loop.time()
+    busy_ms = S.int("busy_pulse_ms", 1, 200)
+    c.pulse(busy_ms)                                   # a hardware pulse keeps the supply busy
+    gap = S.real("gap", 0, 0.3)
+    t.advance_time_and_run(gap)
+    wait = S.int("max_wait_ms", 0, 400) if S.bool("max_wait_given") else None
+    if mode == "hold":
+        dur = S.real("max_hold_duration_s", 1, 10)
+        c.config['max_hold_duration'] = dur
+        c.enable(max_wait_ms=wait)
+    else:
+        ms = S.int("pulse_ms", 256, 1000)
+        dur = ms / 1000.0
+        c.pulse(ms, max_wait_ms=wait)
+    asked = t.loop.time()
+    t.advance_time_and_run(14)
+    ons = [at for kind, at, *_ in mon.cmds if kind == "enable"]
+    if len(ons) != 1:
+        raise Violation("accepted-request-is-executed-once", "Driver.enable" if mode == "hold" else "Driver.pulse",
+                        "%d switch-on commands for one accepted request; commands %s" % (len(ons), [(k, a - t0) for k, a, *_ in mon.cmds]))
+    on = ons[0]
+    if wait is not None and on > asked + wait / 1000.0:
+        raise Violation("deferred-no-longer-than-max-wait", "PowerSupplyUnit.get_wait_time_for_pulse",
+                        "switched on %s s after the request, max_wait_ms %s" % (on - asked, wait))
+    offs = [at for kind, at, *_ in mon.cmds if kind == "disable" and at >= on]
+    if not offs or offs[0] > on + dur:
+        raise Violation("switched-off-when-time-is-up", "Driver._enable_limit_reached" if mode == "hold" else "Driver._pulse_now",
+                        "deferred request (max_wait_ms %s): switched on at +%s, promised off %s s later, disable commands at %s" % (
+                            wait, on - t0, dur, [a - t0 for a in offs]))
+    S.note("nontrivial", True)
+    S.note("deferred", on > asked)
+
+
 def scenarios(tier):
     entries = ["pulse", "enable", "timed_enable", "event_pulse", "event_enable", "player_pulse", "player_enable", "rule_pulse", "rule_hold"]
     extra = ["driver_light", "flipper_sw_flip"]
@@ -273,4 +316,5 @@ def scenarios(tier):
     timed = [dict(mode="sw_pulse", n=n), dict(mode="hold", n=n)]
     pb = 80 if tier == "quick" else 300
     return [Scenario("request", setup, body_request, parts, teardown=teardown, part_budget=pb, per_path_timeout=30),
-            Scenario("timed", setup, body_timed, timed, teardown=teardown, part_budget=pb, per_path_timeout=30)]
+            Scenario("timed", setup, body_timed, timed, teardown=teardown, part_budget=pb, per_path_timeout=30),
+            Scenario("deferred", setup, body_deferred, [dict(mode="hold"), dict(mode="sw_pulse")], teardown=teardown, part_budget=pb, per_path_timeout=30)]
